@@ -110,7 +110,7 @@ class FortranRegularExpressions:
         r"[\+\-]?(\b\d+\.?\d*|\.\d+)(_\w+|d[\+\-]?\d+|e[\+\-]?\d+(_\w+)?)?(?!\w)",
         I,
     )
-    LOGICAL: Pattern = compile(r".true.|.false.", I)
+    LOGICAL: Pattern = compile(r"\.true\.|\.false\.", I)
     SUB_PAREN: Pattern = compile(r"\([\w, ]*\)", I)
     # KIND_SPEC_MATCH: Pattern = compile(r"\([\w, =*]*\)", I)
 
